@@ -99,6 +99,15 @@ static bool step(bool only_others = false) {
     run_task(it, m.w); return true;
 }
 bool interleave() { if (vf_choose(2) == 0) return false; return step(true); }
+// A body that itself waits for nested parallel work re-enters the dispatcher on its own worker: that wait may pop the worker's
+// own deque (e.g. the not yet stolen sibling of the task whose body is running), take mail, steal, or take from the stream.
+bool nested() { if (vf_choose(2) == 0) return false; frames.push_back({cur, cur_isolation}); std::vector<Move> mv; moves_for(cur, true, cur_isolation, mv); bool r = false;
+    if (!mv.empty()) { Move m = mv[vf_choose((int)mv.size())]; Item it;
+        if (m.src == -1) { it = W[m.w].dq.back(); W[m.w].dq.pop_back(); } else if (m.src == -2) { it = stream.front(); stream.pop_front(); }
+        else if (m.src == -3) { auto& q = W[m.src2].dq; size_t k = 0; while (q[k].affinity != m.w) k++; it = q[k]; q.erase(q.begin() + k); mails++; }
+        else { it = W[m.src].dq.front(); W[m.src].dq.pop_front(); steals++; }
+        run_task(it, m.w); r = true; }
+    frames.pop_back(); return r; }
 void set_idle_hook(bool (*h)()) { idle_hook = h; }
 int run_others(int n) { int k = 0; while (k < n && step(true)) k++; return k; }
 static void wait_loop(d1::wait_context& wc) {
